@@ -300,4 +300,76 @@ example : (solveT exI { maxIter := 10 } 5 2 ⟨0, [.unsolved, .error, .failed, .
     = (⟨3, [.unsolved, .error, .solved, .solved, .skipped], [-1, 3, 4, 2, 1]⟩, .ret true) := by
   decide
 
+/-! ### Non-vacuity (review): every hypothesis-carrying theorem instantiated on `exI` (5 periods, real passes) -/
+
+private def exW : World Nat := ⟨0, List.replicate 5 .unsolved, List.replicate 5 (-1)⟩
+private theorem exAcc10 : Accepted exI { maxIter := 10 } 5 2 := by unfold Accepted Feasible; decide
+private theorem swapLt {P : Nat → Prop} (n : Nat) (h : ∀ i, i < n → 0 < i → P i) : ∀ i, 0 < i → i < n → P i :=
+  fun i a b => h i b a
+private theorem swapLe {P : Nat → Prop} (n : Nat) (h : ∀ i, i ≤ n → 0 < i → P i) : ∀ i, 0 < i → i ≤ n → P i :=
+  fun i a b => h i b a
+private theorem exAcc3 : Accepted exI { maxIter := 3 } 5 (-1) := by unfold Accepted Feasible; decide
+
+/-- `solveT_min_gt_max` at `min_iter = 10 > max_iter = 5`. -/
+example : solveT exI { minIter := 10, maxIter := 5 } 5 2 exW = (exW, .valueError) :=
+  solveT_min_gt_max exI _ 5 2 exW (by decide)
+
+/-- `solveT_offset_oob`: period 4 (spelt `-1`) of 5 with `offset = +1`, and period 0 with `offset = -1`. -/
+example : solveT exI { offset := 1 } 5 (-1) exW = (exW, .indexError) ∧
+    solveT exI { offset := -1 } 5 0 exW = (exW, .indexError) :=
+  ⟨solveT_offset_oob exI _ 5 (-1) exW (by decide) (by decide) (by decide),
+   solveT_offset_oob exI _ 5 0 exW (by decide) (by decide) (by decide)⟩
+
+/-- `solveT_offset_copy` / `solveT_offset_zero` at period 2 of 5 (`offset = -1`, resp. `0`). -/
+example : solveT exI { offset := -1 } 5 2 exW = solveCore exI { offset := -1 } 5 2 exW (exI.copyOffset 0 2 (-1)) :=
+  solveT_offset_copy exI _ 5 2 exW (by decide) (by unfold Feasible; decide) (by decide) (by decide) (by decide)
+example : solveT exI {} 5 2 exW = solveCore exI {} 5 2 exW 0 :=
+  solveT_offset_zero exI _ 5 2 exW (by decide) (by unfold Feasible; decide) rfl
+
+/-- `pyIndex_offset` at a negative spelling: `t = -2` of 5 with offset `+1` is position 4 = index `-1`. -/
+example : pyIndex 5 (-2 + 1) = some 4 := pyIndex_offset 5 (-2) 1 (by decide) (by decide) (by decide) (by decide)
+
+/-- `solveT_converges` with `k0 = 4` (three moving passes first), `solveT_fails` with `max_iter = 3`. -/
+example : solveT exI { maxIter := 10 } 5 2 exW = (stamp (withUser exW 3) 5 2 .solved ((4 : Nat) : Int), .ret true) :=
+  solveT_converges exI { maxIter := 10 } 5 2 exW exAcc10 (by decide) 4 (by decide) (by decide) (by decide) (by decide)
+    (swapLt 4 (by unfold Good; decide)) (by unfold Good; decide) (by decide)
+example : solveT exI { maxIter := 3 } 5 (-1) exW =
+    (stamp (withUser exW 3) 5 (-1) .failed ((3 : Nat) : Int), .nonConvergence) :=
+  solveT_fails exI { maxIter := 3 } 5 (-1) exW exAcc3 (by decide) (by decide) (by decide)
+    (swapLe 3 (by unfold Good; decide))
+
+/-- `failed_count_is_max_iter`, `good_iff` (pass 4 of the run above is good, pass 3 is not). -/
+example : (((3 : Int).toNat : Nat) : Int) = 3 := failed_count_is_max_iter { maxIter := 3 } (by decide)
+example : Good exI { maxIter := 10 } 2 0 0 4 ∧ ¬ Good exI { maxIter := 10 } 2 0 0 3 :=
+  ⟨(good_iff exI _ 2 0 0 4 (by decide)).mpr (by decide),
+   fun h => absurd ((good_iff exI _ 2 0 0 3 (by decide)).mp h) (by decide)⟩
+
+/-- `converging_calls` / `failing_calls`: pre-hook, passes 1…4, post-hook; resp. pre-hook, passes 1…3. -/
+example : (solveT (logged exI) { maxIter := 10 } 5 2 ⟨(0, []), exW.status, exW.iters⟩).1.user.2 =
+    [.before, .eval 1, .eval 2, .eval 3, .eval 4, .after 4] :=
+  converging_calls exI { maxIter := 10 } 5 2 [] 0 _ _ exAcc10 (by decide) 4 (by decide) (by decide) (by decide)
+    (by decide) (swapLt 4 (by unfold Good; decide)) (by unfold Good; decide) (by decide)
+example : (solveT (logged exI) { maxIter := 3 } 5 (-1) ⟨(0, []), exW.status, exW.iters⟩).1.user.2 =
+    [.before, .eval 1, .eval 2, .eval 3] :=
+  failing_calls exI { maxIter := 3 } 5 (-1) [] 0 _ _ exAcc3 (by decide) (by decide) (by decide)
+    (swapLe 3 (by unfold Good; decide))
+
+/-- `solvePeriod_keyError` at a missing label and at a label resolving to a non-integer position. -/
+example : solvePeriod exI {} 5 .missing exW = (exW, none) ∧ solvePeriod exI {} 5 .other exW = (exW, none) :=
+  ⟨solvePeriod_keyError exI _ 5 exW .missing (fun _ h => nomatch h),
+   solvePeriod_keyError exI _ 5 exW .other (fun _ h => nomatch h)⟩
+
+/-- `solveT_stamp_history_irrelevant` at period 2 of 5, a fresh record against a used one: the second
+    disjunct holds (both record '.', 4). -/
+example : ∃ (s : Status) (k : Int),
+    (solveT exI { maxIter := 10 } 5 2 exW).1.status[2]? = some s ∧
+    (solveT exI { maxIter := 10 } 5 2 ⟨0, [.unsolved, .error, .failed, .solved, .skipped], [-1, 3, 7, 2, 1]⟩).1.status[2]?
+      = some s ∧
+    (solveT exI { maxIter := 10 } 5 2 exW).1.iters[2]? = some k ∧
+    (solveT exI { maxIter := 10 } 5 2 ⟨0, [.unsolved, .error, .failed, .solved, .skipped], [-1, 3, 7, 2, 1]⟩).1.iters[2]?
+      = some k :=
+  (solveT_stamp_history_irrelevant exI { maxIter := 10 } 5 2 0 exW.status
+      [.unsolved, .error, .failed, .solved, .skipped] exW.iters [-1, 3, 7, 2, 1] 2 (by decide)
+      (by decide) (by decide) (by decide) (by decide)).resolve_left (by decide)
+
 end Fsic.C02
